@@ -184,11 +184,12 @@ def instrumented_simulate(model_file, mapdir, chroms, region, popsize, seed):
     the random tapes."""
     import haptools.sim_genotype as sg
 
+    from . import common as C
+
     calls = []
     gens = []
-    orig_gs, orig_sim = sg.get_segment, sg._simulate
-
-    from . import common as C
+    sim_name, orig_sim = C.find_private(sg, "_simulate", ("samples", "pops", "pop_fracs", "pop_gen", "chroms", "coords", "end_coords", "recomb_probs"))
+    orig_gs = sg.get_segment
 
     def rec_gs(*a, **k):
         out = orig_gs(*a, **k)
@@ -200,7 +201,9 @@ def instrumented_simulate(model_file, mapdir, chroms, region, popsize, seed):
     def rec_sim(*a, **k):
         with C.glue("recording _simulate (entry)"):
             A = C.bind_args(orig_sim, a, k)
-            samples, pops, pop_fracs, pop_gen, chroms_, coords, end_coords, recomb_probs, prev = (list(A.values()) + [None])[:9]
+            samples, pops, pop_fracs, pop_gen, chroms_, coords, end_coords, recomb_probs = C.need(A, "samples", "pops", "pop_fracs", "pop_gen", "chroms", "coords", "end_coords", "recomb_probs")
+            rest = [v for n, v in A.items() if n not in ("samples", "pops", "pop_fracs", "pop_gen", "chroms", "coords", "end_coords", "recomb_probs")]
+            prev = rest[0] if rest else None  # the previous generation, whatever the parameter is called
             prev_snapshot = [[seg_t(s) for s in h] for h in (prev or [])]
             log_start = len(rp.log)
             call_start = len(calls)
@@ -224,12 +227,14 @@ def instrumented_simulate(model_file, mapdir, chroms, region, popsize, seed):
             )
         return out
 
-    sg.get_segment, sg._simulate = rec_gs, rec_sim
+    sg.get_segment = rec_gs
+    setattr(sg, sim_name, rec_sim)
     try:
         with record_random() as rp:
             n, pop_dict, final = sg.simulate_gt(model_file, mapdir, chroms, region, popsize, _log, seed)
     finally:
-        sg.get_segment, sg._simulate = orig_gs, orig_sim
+        sg.get_segment = orig_gs
+        setattr(sg, sim_name, orig_sim)
     return dict(num_samples=n, pop_dict=pop_dict, final=final, gens=gens)
 
 
